@@ -8,6 +8,7 @@
 #include "cmd_sim.h"
 #include "cmd_mem.h"
 #include "cmd_fileio.h"
+#include "cmd_det.h"
 
 static void register_all()
 {
@@ -19,4 +20,5 @@ static void register_all()
   register_sim();
   register_mem();
   register_fileio();
+  register_det();
 }
